@@ -10,7 +10,7 @@ CORE_INV = ["ExactlyOneNotice", "NeverTwice", "RemovedSilent", "NoStaleRelation"
 # (target kind, terminator) -> yield points of the table delete and of the drain
 POINTS = {("pid", "kill"): ("unreg.delete", "term.drain"), ("name", "kill"): ("unreg.release", "term.drain"),
           ("name", "unregname"): ("unname.delete", "term.drain"), ("alias", "kill"): ("unreg.release", "term.drain"),
-          ("event", "kill"): ("unreg.release", "term.drain")}
+          ("event", "kill"): ("unreg.release", "term.drain"), ("event", "unregevent"): ("unevent.delete", "term.drain")}
 
 CONS = {
     "a": {"L1": {"kind": "link", "undo": False}, "L2": {"kind": "monitor", "undo": False}},
